@@ -80,7 +80,9 @@ impl Suite for ExportSuite {
         };
         ensure!(
             doc.get("username").and_then(|v| v.as_str()) == Some(who.username.as_str())
-                && doc.get("password").and_then(|v| v.as_str()) == Some(who.password.as_str()),
+                && (doc.get("password").and_then(|v| v.as_str()) == Some(who.password.as_str())
+                    // a user name written twice: the export carries one of the pairs of that name
+                    || (c.same_user && c.clients.iter().any(|x| x.username == who.username && doc.get("password").and_then(|v| v.as_str()) == Some(x.password.as_str())))),
             "binary-export:credentials-differ",
             "the printed client configuration carries {:?}:{:?}, the credentials file says {:?}:{:?}",
             doc.get("username"),
